@@ -13,6 +13,28 @@ import roles
 from terms import origin, show
 
 
+from facts import is_private_helper
+
+
+def _host_sites(F, reach, h, s):
+    """[(caller's inlined view, the same site inside it)] for a site of private helper (or closure of one) h"""
+    out = []
+    root = F.fns.get(h.j.get("root")) or h
+    for fid in sorted(reach):
+        g = F.fns[fid]
+        if not g.blocks or g.id == h.id:
+            continue
+        v = F.inlined(g, light=False)
+        if root.name not in (v.j.get("inlined") or []):
+            continue
+        if h.id != root.id:
+            continue      # a closure of the helper is not copied into the caller: keep its own key
+        for s2 in P.sites(F, v):
+            if v.prov(s2["bb"]) == (h.id, s["bb"]) and s2["kind"] == s["kind"]:
+                out.append((v, s2))
+    return out
+
+
 def run(ctx):
     R = Report("C09", ctx.tier, "other", "reachable panic-site inventory with exact discharge + reviewed ledger; all-paths pairing; loop-bound slices")
     F = ctx.facts()
@@ -71,6 +93,28 @@ def run(ctx):
                 R.ok(1, sample={"rule": "PANIC ledger", "key": key[:120], "reason": row["reason"][:100]} if n_led % 6 == 1 else None)
                 site_index.setdefault(fid, []).append((s, "ledger"))
                 continue
+            # a site inside a private helper (extract-method) is the callers' site: read it in each caller's inlined view, where
+            # the caller's guards dominate it and the ledger row reviewed for the caller names it
+            hv = _host_sites(F, reach, fn, s) if is_private_helper(F.fns.get(fn.j.get("root")) or fn) else []
+            if hv:
+                res = []
+                for (v, s2) in hv:
+                    why2 = P.discharge(F, v, s2, dbname, tfn)
+                    k2 = P.site_key(v, s2)
+                    if why2:
+                        res.append("discharged")
+                    elif k2 in ledger and used.get(k2, 0) < ledger[k2]["max"]:
+                        used[k2] = used.get(k2, 0) + 1
+                        res.append("ledger")
+                    else:
+                        res.append(None)
+                if all(res):
+                    n_led += 1
+                    used[key] -= 1
+                    R.ok(1, sample={"rule": "PANIC (site in a private helper, read in its callers)", "helper": fn.name[-50:], "callers": [v.name[-50:] for v, _ in hv][:3],
+                                    "by": res[:3]})
+                    site_index.setdefault(fid, []).append((s, "ledger"))
+                    continue
             site_index.setdefault(fid, []).append((s, "violation"))
             R.violation("PANIC", "%s:%d" % (fn.loc["f"], s["line"]), "PANIC|" + key,
                         "panic-capable site `%s` in %s is reachable from a request entry, is not discharged by a guard idiom and is not a "
@@ -111,7 +155,6 @@ def run(ctx):
     # LOOP
     loop_ledger = {r["key"]: r for r in ctx.table("loop_ledger.json")["rows"]}
     n_loops = 0
-    from facts import is_private_helper
     for fid in sorted(reach):
         fn = F.fns[fid]
         if not fn.blocks or is_private_helper(fn):
